@@ -110,7 +110,7 @@ META["C05"] = {
     "technique": "runtime monitoring: panic/CPU/allocation/step-count guards over structure-aware corrupted inputs",
 }
 META["C11"] = {
-    "text": "Exploration of mutation histories on accepted-but-damaged files with panic and CPU-time guards in isolated workers.",
+    "text": "Exploration of mutation histories on accepted-but-damaged files (field corruptions, compound deviations, stream entries aliasing the format's own chains) with panic and CPU-time guards in isolated workers.",
     "design_ref": "DESIGN.md section 2, C11",
     "note": "Only panics and hangs are judged; errors are fine. A worker death is attributed by heartbeat and confirmed in isolation.",
     "technique": "runtime monitoring: panic hook + CPU watchdog over corrupted-input x mutation-history workloads",
@@ -136,9 +136,10 @@ META["C12"] = {
 META["C13"] = {
     "text": "Fault enumeration: every position of the underlying write, seek and flush calls of each mutating workload receives a one-shot "
             "failure; the backing store's log attributes the failure to the API call that was active, which must report it; an Ok flush "
-            "must be durable as seen by a fresh handle.",
-    "design_ref": "DESIGN.md section 2, C13",
-    "note": "Exhaustive over fault positions of the listed workloads. Drop-time errors excluded as the property says.",
+            "must be durable as seen by a fresh handle, by the reopened bytes and - once every failed call has succeeded on retry - by the "
+            "library's own permissive and strict readers; failed calls are repeated at once or after other streams were created and flushed.",
+    "design_ref": "DESIGN.md section 2, C13; section 7 (strict acceptance, interlude, marker positions)",
+    "note": "Exhaustive over fault positions of the listed workloads (seven script families). Drop-time errors excluded as the property says.",
     "technique": "runtime monitoring: exhaustive single-fault injection with API-call attribution + durability readback",
 }
 
